@@ -47,7 +47,7 @@ def facts_at(cfg: CFG, site: int) -> Dict[str, bool]:
             if not f._add(n.ast, l == 'T'):
                 continue
             # nodes strictly between the edge and the site
-            between = cfg.reachable(y) & _can_reach(cfg, site)
+            between = cfg.reachable(y, avoid=[n.id]) & _can_reach(cfg, site, avoid={n.id})
             killed: Set[str] = set()
             for b in between:
                 nb = cfg.nodes[b]
@@ -64,11 +64,11 @@ def facts_at(cfg: CFG, site: int) -> Dict[str, bool]:
     return out
 
 
-def _can_reach(cfg: CFG, target: int) -> Set[int]:
+def _can_reach(cfg: CFG, target: int, avoid=()) -> Set[int]:
     seen, stack = set(), [target]
     while stack:
         x = stack.pop()
-        if x in seen:
+        if x in seen or x in avoid:
             continue
         seen.add(x)
         for (_l, p) in cfg.pred[x]:
